@@ -165,6 +165,7 @@ pcgstrf_thread_init(SuperMatrix *A, SuperMatrix *L, SuperMatrix *U,
     /* Prepare arguments to all threads. */
     pcgstrf_threadarg = (pcgstrf_threadarg_t *) 
         SUPERLU_MALLOC(nprocs * sizeof(pcgstrf_threadarg_t));
+    if ( !pcgstrf_threadarg ) SUPERLU_ABORT("Malloc fails for the thread arguments.");
     for (i = 0; i < nprocs; ++i) {
         pcgstrf_threadarg[i].pnum = i;
         pcgstrf_threadarg[i].info = 0;
